@@ -364,6 +364,42 @@ fn case_builtin1<T: Elem>(case: u64, args: &Args, ev: &mut Ev) {
         if !spec.strat.extrapolates() && spec.n_lanes() > 0 {
             check_error_agreement1(&mut c, interp, &x, &mut rng);
         }
+        // occasionally a large batch (thousands of queries in one call)
+        if case % 16 == 0 && spec.n_lanes() > 0 && spec.n_lanes() <= 6 && !c.failed {
+            for (kind, shape) in [(QKind::S1, vec![5000usize]), (QKind::S2, vec![40, 125]), (QKind::Dyn, vec![8, 9, 70])] {
+                let n: usize = shape.iter().product();
+                let vals: Vec<T> = (0..n).map(|_| rand_in(&mut rng, x[0], x[x.len() - 1])).collect();
+                let qa = Query::from_vec(vals.clone(), &shape, kind);
+                let lanes = spec.n_lanes();
+                match interp.many(&qa) {
+                    Outcome::Ok(r) => {
+                        c.ev.add("large_batches", 1);
+                        let flat: Vec<T> = r.iter().copied().collect();
+                        let mut want = shape.clone();
+                        want.extend(spec.lane_shape());
+                        if r.shape() != want.as_slice() {
+                            c.bad("C09:result-shape", format!("large batch {:?}: shape {:?}, expected {:?}", shape, r.shape(), want));
+                            break;
+                        }
+                        for _ in 0..80 {
+                            let k = rng.below(n);
+                            let Outcome::Ok(one) = interp.one(vals[k]) else {
+                                c.bad("C09:interp-failed", format!("interp({:?}) failed although the batch answered", vals[k]));
+                                break;
+                            };
+                            let of: Vec<T> = one.iter().copied().collect();
+                            c.ev.add("elements_compared", lanes as u64);
+                            if bits_of(&of) != bits_of(&flat[k * lanes..(k + 1) * lanes]) {
+                                c.bad("C09:array-vs-single", format!("large batch {:?} ({} queries): element {k} differs from interp(q[{k}])", shape, n));
+                                break;
+                            }
+                        }
+                    }
+                    Outcome::Untypeable => {}
+                    o => c.bad("C09:interp_array-failed", format!("large batch {:?} -> {}", shape, o.detail())),
+                }
+            }
+        }
     });
 }
 
